@@ -601,7 +601,7 @@ def _ints(rng, n, lo, hi):
     return [rng.randint(lo, hi) for _ in range(n)]
 
 
-def gen_score(rng, kind, qs, ks, small=False):
+def gen_score(rng, kind, qs, ks, small=False, hidden=None):
     pm = 2 if small else 4
     if kind == "dot":
         return {"kind": "dot", "qs": qs, "ks": qs,
@@ -610,7 +610,7 @@ def gen_score(rng, kind, qs, ks, small=False):
     if kind == "general":
         return {"kind": "general", "qs": qs, "ks": ks, "bias": bias,
                 "W": _ints(rng, qs * ks, -pm, pm), "b": _ints(rng, qs, -pm, pm)}
-    hidden = rng.randint(1, 3)
+    hidden = hidden or rng.randint(1, 3)
     return {"kind": "concat", "qs": qs, "ks": ks, "bias": bias, "hidden": hidden,
             "W": _ints(rng, hidden * (qs + ks), -pm, pm), "b": _ints(rng, hidden, -pm, pm),
             "vv": _ints(rng, hidden, -pm, pm)}
@@ -635,11 +635,18 @@ def gen_case(rng, flavour=None, bias_combo=None, negdim=None, opts=None):
         base = [max(b, opts["minb"]) for b in base]
     if prod(base) > 18:
         base = [min(b, 2) for b in base]
+    if opts.get("maxb"):
+        base = [min(b, opts["maxb"]) for b in base]
     base[axis] = T
+    ext = opts.get("ext")  # (batch axis, size): one broadcast extent made large (size-threshold stream)
+    if ext:
+        base[ext[0]] = ext[1]
     one = lambda b, pr: 1 if rng.random() < (pr / 3 if opts.get("minb") else pr) else b  # noqa: E731
     kb = [b if i == axis else one(b, 0.25) for i, b in enumerate(base)]
     qb = [one(b, 0.3) for i, b in enumerate(base) if i != axis]
     qu = qb[:axis] + [1] + qb[axis:]
+    if ext and max(qu[ext[0]], kb[ext[0]]) != ext[1]:
+        kb[ext[0]] = ext[1]
     eb = [max(a, b) for a, b in zip(qu, kb)]
     vb = [b if i == axis else one(b, 0.25) for i, b in enumerate(base)]
     mask_mode = opts.get("mask") or rng.choice(["none", "full", "full", "full", "bcast", "lowrank"])
@@ -652,15 +659,15 @@ def gen_case(rng, flavour=None, bias_combo=None, negdim=None, opts=None):
         if mask_mode == "lowrank" and len(mb) > 1:
             cut = rng.randint(1, min(axis, len(mb) - 1)) if axis >= 1 else 0
             mb = mb[cut:]
-    D = rng.choice([1, 2, 3])
+    D = opts.get("D") or rng.choice([1, 2, 3])
     if flavour == "mha":
         H = opts.get("H") or rng.choice([1, 2, 2, 3])
         inner = opts.get("inner") or rng.choice(SINGLE)
-        dq = rng.choice([1, 2])
-        dk = dq if inner == "dot" else rng.choice([1, 2])
-        qsize, ksize, vsize = rng.choice([1, 2, 3]), rng.choice([1, 2, 3]), rng.choice([1, 2, 3])
-        dv = rng.choice([None, None, 1, 2])
-        osize = rng.choice([None, None, 1, 2, 3])
+        dq = opts.get("dq") or rng.choice([1, 2])
+        dk = dq if inner == "dot" else (opts.get("dk") or rng.choice([1, 2]))
+        qsize, ksize, vsize = (opts.get(n_) or rng.choice([1, 2, 3]) for n_ in ("qsize", "ksize", "vsize"))
+        dv = opts["dv"] if "dv" in opts else rng.choice([None, None, 1, 2])
+        osize = opts["osize"] if "osize" in opts else rng.choice([None, None, 1, 2, 3])
         dv_eff = dv if dv is not None else max(1, vsize // H)
         osize_eff = osize if osize is not None else vsize
         bias = list(bias_combo) if bias_combo is not None else [rng.random() < 0.5 for _ in range(4)]
@@ -670,14 +677,14 @@ def gen_case(rng, flavour=None, bias_combo=None, negdim=None, opts=None):
                "WK": _ints(rng, H * dk * ksize, -2, 2), "bK": _ints(rng, H * dk, -2, 2),
                "WV": _ints(rng, H * dv_eff * vsize, -4, 4), "bV": _ints(rng, H * dv_eff, -4, 4),
                "WC": _ints(rng, osize_eff * H * dv_eff, -4, 4), "bC": _ints(rng, osize_eff, -4, 4)}
-        score = gen_score(rng, inner, dq, dk, small=True)
+        score = gen_score(rng, inner, dq, dk, small=True, hidden=opts.get("hidden"))
         Q, K, D = qsize, ksize, vsize
         qlo = 4
     else:
         mha = None
-        Q = rng.choice([1, 2, 3])
-        K = Q if flavour == "dot" else rng.choice([1, 2, 3])
-        score = gen_score(rng, flavour, Q, K)
+        Q = opts.get("Q") or rng.choice([1, 2, 3])
+        K = Q if flavour == "dot" else (opts.get("K") or rng.choice([1, 2, 3]))
+        score = gen_score(rng, flavour, Q, K, hidden=opts.get("hidden"))
         qlo = 8
     if opts.get("alias"):  # value is the key: same shape, same numbers (the value grid is twice as fine)
         vb, D = list(kb), K
@@ -789,6 +796,269 @@ def gen_trace(rng, k):
                  opts={"mask": rng.choice(["none", "full", "full", "bcast", "lowrank"]), "rank": rng.choice([2, 3, 3, 4])})
     c["trace"] = True
     return c
+
+
+# ----------------------------------------------------------------------------------------
+# size thresholds / algorithm regimes (notes/prompts/SIZE_AUDIT.md): ONE tensor extent at a time at and next to
+# 16, 32, 64, 128, 256 (sort/topk network sizes, vector widths, blocked reductions, BLAS kernels, int8 indices), every
+# other extent small so that the model stays cheap; same model terms and relations as every other stream
+# ----------------------------------------------------------------------------------------
+SIZE_GROUPS = [[17], [31, 32, 33], [63, 64, 65], [127, 128, 129], [255, 256, 257]]
+_EDGES = (15, 16, 31, 32, 63, 64, 127, 128, 255, 256)
+# extent -> (flavours it exists for, cases in the quick tier, number of size groups used)
+SIZE_EXTENTS = [
+    ("T", ["dot", "general", "concat", "mha/dot", "mha/general", "mha/concat"], 14, 5),
+    ("batch-before", ["dot", "general", "concat", "mha/dot", "mha/general", "mha/concat"], 6, 5),
+    ("batch-after", ["dot", "general", "concat", "mha/dot", "mha/general", "mha/concat"], 6, 5),
+    ("query_size", ["dot", "general", "concat", "mha/dot"], 7, 5),
+    ("key_size", ["general", "concat", "mha/general"], 6, 5),
+    ("value_size", ["dot", "general", "concat", "mha/dot"], 6, 5),
+    ("hidden_size", ["concat", "mha/concat"], 6, 5),
+    ("num_heads", ["mha/dot", "mha/general", "mha/concat"], 6, 4),
+    ("d_q", ["mha/dot", "mha/general", "mha/concat"], 5, 4),
+    ("d_k", ["mha/general", "mha/concat"], 4, 4),
+    ("d_v", ["mha/dot", "mha/general"], 4, 4),
+    ("out_size", ["mha/dot", "mha/concat"], 4, 4),
+]
+
+
+def _hot(rng, n, extra=4):
+    """indices of a long reduction axis that carry non-zero numbers: both sides of every block edge, the first and the
+    LAST index and a few random ones - the sum stays O(1) (scores must not saturate the softmax) while a cell dropped,
+    duplicated or swapped next to a block boundary changes it; a short axis is dense"""
+    if n <= 8:
+        return set(range(n))
+    return {i for i in _EDGES if i < n} | {0, n - 1} | {rng.randrange(n) for _ in range(extra)}
+
+
+def _nz(rng, m):
+    return rng.choice([x for x in range(-m, m + 1) if x])
+
+
+def _vec(rng, n, m, dense=False):
+    hot = set(range(n)) if dense else _hot(rng, n)
+    return [_nz(rng, m) if i in hot else 0 for i in range(n)]
+
+
+def _mat(rng, rows, cols, m, rowhot=None, dense=False):
+    """row-major rows x cols; every row sparse along a long column axis (own hot set per row); rows outside rowhot zero"""
+    out = []
+    for r in range(rows):
+        out += [0] * cols if rowhot is not None and r not in rowhot else _vec(rng, cols, m, dense)
+    return out
+
+
+def _size_score(rng, sp):
+    """score parameters for long feature axes: whatever is summed inside the score is sparse, the LAST cell included"""
+    qs, ks = sp["qs"], sp["ks"]
+    if sp["kind"] == "dot":
+        sp["scale"] = rng.choice([[1, 1], [1, 2], [1, 4], [-1, 2]])
+    elif sp["kind"] == "general":
+        sp["W"] = _mat(rng, qs, ks, 2)
+        sp["b"] = _vec(rng, qs, 2, dense=True)
+    else:
+        h = sp["hidden"]
+        sp["W"] = [x for _ in range(h) for x in _vec(rng, qs, 2) + _vec(rng, ks, 2)]
+        sp["b"] = _vec(rng, h, 2, dense=True)
+        sp["vv"] = _vec(rng, h, 2)
+
+
+def _size_mask(rng, mb, maxis, T, rot):
+    """mask rows over a long sequence axis: only the LAST position kept; everything kept; everything but the last;
+    left-padded (a suffix kept); holes with the last kept; three scattered positions and the last; right-padded"""
+    marr = np.zeros(mb, dtype=bool)
+    mv = np.moveaxis(marr, maxis, -1)
+    for r, idx in enumerate(np.ndindex(mv.shape[:-1])):
+        p = (r + rot) % 7
+        row = np.zeros(T, dtype=bool)
+        if p == 0:
+            row[T - 1] = True
+        elif p == 1:
+            row[:] = True
+        elif p == 2:
+            row[:T - 1] = True
+        elif p == 3:
+            row[T - rng.randint(2, T - 1):] = True
+        elif p == 4:
+            row[:] = [rng.random() < 0.8 for _ in range(T)]
+            row[T - 1] = True
+        elif p == 5:
+            row[[rng.randrange(T) for _ in range(3)] + [T - 1]] = True
+        else:
+            row[:rng.randint(1, T - 1)] = True
+        mv[idx] = row
+    return marr
+
+
+def _pooled(rng, count, make, pool):
+    """count items; more than `pool` of them -> drawn from `pool` distinct ones.  Keeps the number of distinct scores
+    (= the size of the exp / tanh oracle tables, which the model searches linearly once per softmax term) small, and
+    gives the long axes many TIED scores with distinct values behind them"""
+    if count <= pool:
+        return [make() for _ in range(count)]
+    items = [make() for _ in range(pool)]
+    return [items[rng.randrange(pool)] for _ in range(count)]
+
+
+def gen_sized(rng, extent, fl, n, k):
+    """one case whose extent `extent` is n (see SIZE_EXTENTS); k varies layout, mask, entry point"""
+    flavour, _, inner = fl.partition("/")
+    opts = {"rank": [3, 2, 3, 4][k % 4], "T": rng.choice([2, 3]), "maxb": 1 if n >= 255 else 2 if n >= 127 else 3,
+            "mask": ["full", "none", "lowrank", "full", "bcast"][k % 5]}
+    if inner:
+        opts.update(inner=inner, H=rng.choice([1, 2]))
+    if extent == "T":
+        opts["T"] = n
+        opts["mask"] = ["full", "full", "lowrank", "none", "full", "bcast"][k % 6]
+        if n >= 63:  # the model's cost is ~T^2 per output cell (model_cost): few output cells
+            opts.update(maxb=2, dv=1, D=rng.choice([1, 2]))
+        if n >= 127:
+            opts.update(rank=[3, 2][k % 2], maxb=1 if inner or n >= 255 else 2, D=1)
+            if inner and n >= 255:
+                opts["H"] = 1
+    elif extent.startswith("batch"):
+        opts["rank"] = [3, 4][k % 2] if n < 255 else 3
+        opts["axis"] = 0 if extent == "batch-after" else opts["rank"] - 2
+        opts["ext"] = (opts["rank"] - 2 if extent == "batch-after" else 0, n)
+        if n >= 255:
+            opts.update(T=2, maxb=1)
+    else:
+        key = {"query_size": "qsize" if inner else "Q", "key_size": "ksize" if inner else "K",
+               "value_size": "vsize" if inner else "D", "hidden_size": "hidden", "num_heads": "H", "d_q": "dq",
+               "d_k": "dk", "d_v": "dv", "out_size": "osize"}[extent]
+        opts[key] = n
+        if inner and extent in ("num_heads", "d_v", "out_size", "value_size"):
+            opts.update(dq=1, dk=1, qsize=rng.choice([1, 2]), ksize=rng.choice([1, 2]))
+        if extent == "num_heads":
+            opts.update(dv=rng.choice([None, 1]), rank=[3, 2][k % 2], maxb=2)
+        if extent in ("num_heads", "d_v") and n >= 63:  # closing projection: ~(H d_v)^2 per output cell
+            opts.update(osize=rng.choice([1, 2]) if n < 127 else 1, maxb=2 if n < 127 else 1)
+            if extent == "d_v":
+                opts["H"] = 1
+        if inner and extent == "value_size":
+            opts.update(dv=rng.choice([1, 2]), osize=rng.choice([None, 2]))
+    neg = flavour != "mha" and k % 3 == 1
+    c = gen_case(rng, flavour, negdim=neg, opts=opts)
+    # payloads: whatever is summed inside a score is sparse along a long feature axis (LAST cell included), query / key
+    # rows and per-head projections come from small pools, values are all distinct
+    Q, K = c["qshape"][-1], c["kshape"][-1]
+    c["q"] = [x for row in _pooled(rng, prod(c["qshape"][:-1]), lambda: _vec(rng, Q, 2), 3) for x in row]
+    c["k"] = [x for row in _pooled(rng, prod(c["kshape"][:-1]), lambda: _ints(rng, K, -4, 4), 5) for x in row]
+    nv = prod(c["vshape"])
+    c["v"] = rng.sample(range(-(nv // 2) - 32, nv // 2 + 33), nv)
+    _size_score(rng, c["score"])
+    if flavour == "mha":
+        mp = c["mha"]
+        H, dq, dk, dv = mp["H"], mp["dq"], mp["dk"], mp["dv_eff"]
+        hq, hk = _hot(rng, dq), _hot(rng, dk)  # per-head query / key features that are non-zero
+        for name, d, hot, size in (("Q", dq, hq, mp["qsize"]), ("K", dk, hk, mp["ksize"])):
+            blocks = _pooled(rng, H, lambda: (_mat(rng, d, size, 2, rowhot=hot),
+                                              [_nz(rng, 2) if j in hot else 0 for j in range(d)]), 3)
+            mp["W" + name] = [x for blk in blocks for x in blk[0]]
+            mp["b" + name] = [x for blk in blocks for x in blk[1]]
+        mp["WV"] = _mat(rng, H * dv, mp["vsize"], 4, dense=True)
+        mp["bV"] = _vec(rng, H * dv, 4, dense=True)
+        mp["WC"] = _mat(rng, mp["osize_eff"], H * dv, 4, dense=True)
+        mp["bC"] = _vec(rng, mp["osize_eff"], 4, dense=True)
+    if extent == "T" and k % 5 == 2 or extent in ("T", "d_v", "num_heads") and n >= 63 and k % 2 == 0:
+        # every score is 0: the weights are uniform, the output is the plain mean of the kept values (projected) - and the
+        # model is cheap at any size (exp 0 = 1: its unreduced rational sums stay small, see model_cost)
+        c["q"] = [0] * len(c["q"])
+        if flavour == "mha":
+            c["mha"]["bias"][0] = False
+        if c["score"]["kind"] == "concat":
+            c["score"]["vv"] = [0] * c["score"]["hidden"]
+    if extent == "T" and c["mshape"] is not None:
+        mb = c["mshape"]
+        maxis = axis_of(c) - (len(c["kshape"]) - 1 - len(mb))
+        if maxis >= 0 and mb[maxis] == n:
+            c["mask"] = [int(x) for x in _size_mask(rng, mb, maxis, n, k).reshape(-1)]
+    if k % 4 == 1:
+        c["script"] = True
+    elif k % 8 == 6:
+        c["trace"] = True
+    elif k % 8 == 3:
+        c["kwcall"] = True
+    c["size_extent"] = "%s=%d" % (extent, n)
+    return c
+
+
+def sized_cases(rng, tier):
+    """quick: per extent a handful of cases, sizes stratified over the groups 17 | 31..33 | 63..65 | 127..129 | 255..257
+    (which member of a group, and which flavour, rotates with the run's seed); thorough: every flavour x every size"""
+    cases = []
+    for extent, flavours, nquick, ngroups in SIZE_EXTENTS:
+        groups = SIZE_GROUPS[:ngroups]
+        if tier == "thorough":
+            plan = [(fl, n) for fl in flavours for g in groups for n in g]
+        else:
+            r0, f0 = rng.randrange(3), rng.randrange(len(flavours))
+            plan = []
+            for j in range(nquick):
+                g = groups[j % len(groups)]
+                plan.append((flavours[(j + f0) % len(flavours)], g[(j // len(groups) + j + r0) % len(g)]))
+        k0 = rng.randrange(8)
+        for j, (fl, n) in enumerate(plan):
+            cases.append(gen_sized(rng, extent, fl, n, k0 + j))
+    return cases
+
+
+def np_attend(case):
+    """float64 numpy evaluation of the DEFINITION (class documentation = theorem c20_attention_is_masked_convex_
+    combination): e = score(query, key); masked positions at -inf; a = softmax of e over the sequence axis; out = sum_t
+    a_t value_t; multi-headed = project, that per head, concatenate, project.  Independent of torch and of the library.
+    Judges the size-threshold cases, next to the Coq model wherever that can afford the size (model_cost)."""
+    q, k, v, m = arrays(case)
+    axis = axis_of(case)
+    if case["flavour"] == "mha":
+        q, k, v = head_inputs(case)
+        m = None if m is None else m[..., None]
+    e, _ = np_scores(case["score"], q, k, axis)
+    with np.errstate(all="ignore"):
+        if m is not None:
+            e = np.where(m, e, -np.inf)
+        w = np.exp(e - e.max(axis=axis, keepdims=True))
+        a = w / w.sum(axis=axis, keepdims=True)
+        out = (a[..., None] * v).sum(axis=axis)
+        if case["flavour"] == "mha":
+            W, b = mha_mats(case)["WC"]
+            out = out.reshape(out.shape[:-2] + (-1,)) @ W.T + (0 if b is None else b)
+    return out
+
+
+def oracle_ok(case, res):
+    """implementation output == np_attend on every cell with a kept position (abs 1e-9, as the model comparison)"""
+    if res["out"] is None:
+        return False
+    ref = np_attend(case)
+    if ref.shape != res["out"].shape:
+        return False
+    d = np.abs(ref - res["out"])[~np.isnan(ref)]
+    return bool((d <= 1e-9).all())  # a NaN of the implementation where the oracle has a number compares False
+
+
+def model_cost(case):
+    """rough count of the bit-level work of vm_compute on the model term.  Q sums are not reduced: a sum of n weighted
+    values (a_t = exp / row sum, a different odd denominator per term) builds numerators of ~110 n bits, so every output
+    cell of attend costs ~T^2 and every output cell of the closing projection ~(H d_v)^2; the oracle tables are searched
+    linearly once per softmax term"""
+    if case.get("malformed"):
+        return 0
+    q, k, v, m = arrays(case)
+    axis = axis_of(case)
+    eshape = np.broadcast_shapes(np.expand_dims(q, axis).shape[:-1], k.shape[:-1])
+    rows = prod(np.broadcast_shapes(eshape, v.shape[:-1])) // k.shape[axis]
+    T = k.shape[axis]
+    mp = case["mha"]
+    tied = not any(case["q"]) and not (mp and mp["bias"][0]) or \
+        case["score"]["kind"] == "concat" and not any(case["score"]["vv"])  # all scores 0: small numbers throughout
+    if case["flavour"] != "mha":
+        return rows * v.shape[-1] * T * T // (40 if tied else 1) + prod(eshape) * T // 2
+    hd = mp["H"] * mp["dv_eff"]
+    return (rows * hd * T * T + rows * mp["osize_eff"] * hd * hd) // (40 if tied else 1) + prod(eshape) * mp["H"] * T // 2
+
+
+MODEL_BUDGET = {"quick": 12000, "thorough": 600000}  # measured: ~4000 units per second of vm_compute
 
 
 def gen_malformed(rng):
@@ -1008,12 +1278,45 @@ def source_tie(chk, cases, results):
 # ----------------------------------------------------------------------------------------
 # run / replay
 # ----------------------------------------------------------------------------------------
+def judge(chk, cases, results, tag="cases"):
+    """per case: does the implementation's output agree with the model?  Ordinary cases: the Coq term, one wave of coqc
+    processes on the 16 workers of coq_eval_bools (at least 40 cases each).  Size-threshold cases (case["size_extent"]):
+    the same Coq term wherever the model can afford the size (model_cost within the tier's budget; a second wave whose
+    shards are balanced by cost), AND the numpy oracle of the definition (np_attend) for every one of them."""
+    oks = [True] * len(cases)
+    small = [i for i, c in enumerate(cases) if not c.get("size_extent")]
+    terms = [model_term(cases[i], results[i]) for i in small]
+    for i, ok in zip(small, coq_eval_bools(chk.workdir, IMPORTS, terms, shard=max(40, -(-len(terms) // 16)), tag=tag)):
+        oks[i] = ok
+    sized = [i for i, c in enumerate(cases) if c.get("size_extent")]
+    budget = MODEL_BUDGET.get(getattr(chk, "tier", "quick"), MODEL_BUDGET["quick"])
+    cost = {i: model_cost(cases[i]) for i in sized}
+    aff = sorted((i for i in sized if cost[i] <= budget), key=lambda i: -cost[i])
+    if aff:
+        bins = [[] for _ in range(min(16, len(aff)))]
+        load = [0] * len(bins)
+        for i in aff:  # longest processing time first, each to the least loaded shard
+            j = load.index(min(load))
+            bins[j].append(i)
+            load[j] += cost[i] + 4000
+        width = max(len(b) for b in bins)
+        flat, where = [], []
+        for b in bins:
+            flat += [model_term(cases[i], results[i]) for i in b] + ["true"] * (width - len(b))
+            where += b + [None] * (width - len(b))
+        for i, ok in zip(where, coq_eval_bools(chk.workdir, IMPORTS, flat, shard=width, tag=tag + "_sz")):
+            if i is not None:
+                oks[i] = ok
+    for i in sized:
+        results[i]["judged_by"] = ("Coq model + numpy oracle of the definition" if cost[i] <= budget else
+                                   "numpy oracle of the definition (model cost %d > budget %d)" % (cost[i], budget))
+        oks[i] = oks[i] and oracle_ok(cases[i], results[i])
+    return oks
+
+
 def evaluate(chk, cases, tag="cases"):
     results = [run_impl(c) for c in cases]
-    terms = [model_term(c, r) for c, r in zip(cases, results)]
-    # one wave of coqc processes on the 16 workers of coq_eval_bools (at least 40 cases each)
-    oks = coq_eval_bools(chk.workdir, IMPORTS, terms, shard=max(40, -(-len(terms) // 16)), tag=tag)
-    return results, oks
+    return results, judge(chk, cases, results, tag)
 
 
 def _known_sig(entry, record):
@@ -1025,14 +1328,14 @@ def _summ(res):
     if res["out"] is None:
         return {"raised": res["exc"], "anomalies": res["anomalies"]}
     return {"shape": list(res["out"].shape), "out": [float(x) for x in res["out"].reshape(-1)][:64],
-            "anomalies": res["anomalies"]}
+            "anomalies": res["anomalies"], **({"judged_by": res["judged_by"]} if "judged_by" in res else {})}
 
 
 def _fails(chk, case):
     res = run_impl(case)
     if relations(case, res):
         return True
-    return not coq_eval_bools(chk.workdir, IMPORTS, [model_term(case, res)], tag="shr")[0]
+    return not judge(chk, [case], [res], tag="shr")[0]
 
 
 def report_case(chk, case, res, model_ok, rel, allow_nfi):
@@ -1121,6 +1424,10 @@ def run(chk, cases=None):
             c = gen_trace(arng, i)
             c["stream"] = "trace-entry"
             cases.append(c)
+        # size thresholds / algorithm regimes (notes/prompts/SIZE_AUDIT.md); own generator, drawn after every older stream
+        for c in sized_cases(_random.Random(arng.getrandbits(64)), chk.tier):
+            c["stream"] = "size-threshold"
+            cases.append(c)
         chk.extra["exhaustive"] = False
         chk.extra["enumeration_scope"] = ("mha: all 16 bias combinations x 3 wrapped flavours x {no mask, mask}; single: 3 flavours x "
                                           "key rank 2..4(5) x every sequence axis x {no mask, full, broadcast, lower-rank mask} x "
@@ -1146,6 +1453,11 @@ def run(chk, cases=None):
                 "broadcast" if 1 in c["mshape"] else "full"))
         if c.get("alias_kv"):
             chk.count("value is key: " + c["flavour"])
+        if c.get("size_extent"):
+            ext_, n_ = c["size_extent"].split("=")
+            chk.count("size %s in %s" % (ext_, next("..".join(map(str, sorted({g[0], g[-1]}))) for g in SIZE_GROUPS
+                                                     if int(n_) in g)))
+            chk.count("size-threshold judged by " + r.get("judged_by", "?").split(" (")[0])
         if c.get("big") and r["out"] is not None:
             try:
                 q_, k_, v_, m_ = arrays(c)
@@ -1184,7 +1496,7 @@ def run(chk, cases=None):
             c = shrink(c, lambda x: _fails(chk, x) and family(x) == key[0] and bool(relations(x, run_impl(x))) == bool(rel),
                        _cands, budget=30)
             r = run_impl(c)
-            ok = coq_eval_bools(chk.workdir, IMPORTS, [model_term(c, r)], tag="fin")[0]
+            ok = judge(chk, [c], [r], tag="fin")[0]
             rel = relations(c, r)
         out = report_case(chk, c, r, ok, rel, allow_nfi=not any_concrete_unknown)
         if rel and out == "violation":
